@@ -6,10 +6,10 @@ wt=/tmp/confirm_$$
 git -C /repo worktree add -q --detach $wt HEAD || exit 2
 trap 'git -C /repo worktree remove --force $wt' EXIT
 cd $wt
-PYTHONPATH=$wt /venv/bin/python -W ignore "$d/demo.py" >/tmp/confirm_$$.clean 2>&1; c=$?
+OMP_NUM_THREADS=1 OPENBLAS_NUM_THREADS=1 PYTHONPATH=$wt /venv/bin/python -W ignore "$d/demo.py" >/tmp/confirm_$$.clean 2>&1; c=$?
 echo "demo on clean tree: exit $c"
 git apply "$d/patch.diff" || { echo "PATCH DOES NOT APPLY"; exit 2; }
-PYTHONPATH=$wt /venv/bin/python -W ignore "$d/demo.py" >/tmp/confirm_$$.patched 2>&1; p=$?
+OMP_NUM_THREADS=1 OPENBLAS_NUM_THREADS=1 PYTHONPATH=$wt /venv/bin/python -W ignore "$d/demo.py" >/tmp/confirm_$$.patched 2>&1; p=$?
 echo "demo on patched tree: exit $p"; tail -3 /tmp/confirm_$$.patched
 if [ $# -gt 0 ]; then
   PYTHONPATH=$wt /venv/bin/python -m pytest -q -p no:cacheprovider -n 4 "$@" 2>&1 | tail -4
